@@ -234,6 +234,22 @@ def run_decompress(files, nworkers=(1, 4, 2, 16), flavor="rel", timeout=120):
         return list(ex.map(work, list(enumerate(files))))
 
 
+def boundary_plains(rng, level=1, n=24):
+    """runs of equal bytes placed right at the block capacity / chunk boundary (level*100000 RLE bytes)"""
+    M = 100000 * level
+    out = []
+    noise = bytes((i * 7 + (i >> 3)) % 251 for i in range(M + 600))      # no run of 4 equal bytes
+    for _ in range(n):
+        k = rng.range(0, 9)
+        r = rng.choice([3, 4, 5, 6, 7, 8, 255, 258, 259, 260, 263])
+        c = rng.below(256)
+        pre = noise[:M - k]
+        if pre and pre[-1] == c:
+            c = (c + 1) % 256
+        out.append(pre + bytes([c]) * r + noise[:rng.range(0, 300)])
+    return out
+
+
 def big_plains(rng, quick):
     """a few larger inputs for process-level runs (several blocks at level 1/2)"""
     out = []
